@@ -604,6 +604,22 @@ class ParsedField:
     raw: bytes
 
 
+def _wire_type_matches(proto_type: str, wire_type: int, repeated: bool) -> bool:
+    """Whether a field of the given type may arrive with the given wire type."""
+    if proto_type in WIRE_VARINT_TYPES:
+        expected = WIRE_VARINT
+    elif proto_type in WIRE_FIXED_32_TYPES:
+        expected = WIRE_FIXED_32
+    elif proto_type in WIRE_FIXED_64_TYPES:
+        expected = WIRE_FIXED_64
+    else:
+        expected = WIRE_LEN_DELIM
+    if wire_type == expected:
+        return True
+    # Repeated scalar fields may also arrive packed.
+    return repeated and wire_type == WIRE_LEN_DELIM and proto_type in PACKED_TYPES
+
+
 def _read_exactly(stream: "SupportsRead[bytes]", size: int) -> bytes:
     """Read exactly ``size`` bytes from the stream or raise :class:`EOFError`."""
     data = stream.read(size)
@@ -1324,6 +1340,15 @@ class Message(ABC):
             return self
         for parsed in load_fields(stream):
             field_name = proto_meta.field_name_by_number.get(parsed.number)
+            if field_name and not _wire_type_matches(
+                proto_meta.meta_by_field_name[field_name].proto_type,
+                parsed.wire_type,
+                proto_meta.default_gen[field_name] is list,
+            ):
+                # The wire type does not fit the declared type of this field,
+                # keep the data as an unknown field instead of mis-decoding it.
+                field_name = None
+
             if not field_name:
                 self._unknown_fields += parsed.raw
             else:
